@@ -23,12 +23,14 @@ use std::time::{Duration, Instant};
 // Counting allocator (C07): live heap bytes / blocks of the whole process. Only meaningful for
 // lifecycle jobs, which the driver runs in a single-worker process.
 struct Counting;
+// off unless VERIF_COUNT_ALLOC is set (16 workers hammering two shared counters slow everything down)
+static COUNTING: std::sync::atomic::AtomicBool = std::sync::atomic::AtomicBool::new(false);
 static LIVE_BYTES: std::sync::atomic::AtomicIsize = std::sync::atomic::AtomicIsize::new(0);
 static LIVE_BLOCKS: std::sync::atomic::AtomicIsize = std::sync::atomic::AtomicIsize::new(0);
 unsafe impl std::alloc::GlobalAlloc for Counting {
     unsafe fn alloc(&self, l: std::alloc::Layout) -> *mut u8 {
         let p = unsafe { std::alloc::System.alloc(l) };
-        if !p.is_null() {
+        if !p.is_null() && COUNTING.load(Ordering::Relaxed) {
             LIVE_BYTES.fetch_add(l.size() as isize, Ordering::Relaxed);
             LIVE_BLOCKS.fetch_add(1, Ordering::Relaxed);
         }
@@ -36,12 +38,14 @@ unsafe impl std::alloc::GlobalAlloc for Counting {
     }
     unsafe fn dealloc(&self, p: *mut u8, l: std::alloc::Layout) {
         unsafe { std::alloc::System.dealloc(p, l) };
-        LIVE_BYTES.fetch_sub(l.size() as isize, Ordering::Relaxed);
-        LIVE_BLOCKS.fetch_sub(1, Ordering::Relaxed);
+        if COUNTING.load(Ordering::Relaxed) {
+            LIVE_BYTES.fetch_sub(l.size() as isize, Ordering::Relaxed);
+            LIVE_BLOCKS.fetch_sub(1, Ordering::Relaxed);
+        }
     }
     unsafe fn realloc(&self, p: *mut u8, l: std::alloc::Layout, new_size: usize) -> *mut u8 {
         let q = unsafe { std::alloc::System.realloc(p, l, new_size) };
-        if !q.is_null() {
+        if !q.is_null() && COUNTING.load(Ordering::Relaxed) {
             LIVE_BYTES.fetch_add(new_size as isize - l.size() as isize, Ordering::Relaxed);
         }
         q
@@ -1021,6 +1025,10 @@ fn run_job(job: &J, std: &Std) -> J {
 }
 
 fn main() {
+    if std::env::var("VERIF_COUNT_ALLOC").is_ok() {
+        // set before anything else allocates on behalf of a job; never toggled afterwards
+        COUNTING.store(true, Ordering::Relaxed);
+    }
     let args: Vec<String> = std::env::args().collect();
     if args.len() < 5 || args[1] != "exec" {
         eprintln!("usage: abra-verif exec <jobs.jsonl> <results.jsonl> <journal> [threads] [job_timeout_s]");
